@@ -207,7 +207,18 @@ type selRes struct {
 	err   string
 }
 
+var c12PoisonCtr int
+
+// c12Poisons: selector texts the parser rejects half-way (complete segments followed by an
+// unterminated quote, an unbalanced bracket, a bad number, an upper half of a slice).
+var c12Poisons = []string{`.x["y`, `.secret.admin["unterminated`, `.a.b[`, `.a[1:`, `.a.b["c"].d["`, `.a[99999999999999999999]`, `.a..b`, `.a["b"]]`, `.a.b.c.d.e.f["`, `a.b`, `.a[1:2:3]`}
+
 func c12Select(text string, d datamodel.Node) (selRes, error) {
+	// every fourth parse is preceded by one that fails half-way: what it leaves behind must not
+	// matter to the next one
+	if c12PoisonCtr++; c12PoisonCtr%4 == 0 {
+		mon.Guard(func() { _, _ = selector.Parse(c12Poisons[(c12PoisonCtr/4)%len(c12Poisons)]) })
+	}
 	sel, err := selector.Parse(text)
 	if err != nil {
 		return selRes{}, err
